@@ -56,7 +56,16 @@ TSess == IsEvent("Sess") /\ hist' = <<>> /\ d' = 0
 TGrant == IsEvent("Grant") /\ hist' = <<"granted">> /\ UNCHANGED d
 TWire == IsEvent("Wire") /\ hist = <<"granted">> /\ hist' = <<>> /\ UNCHANGED d      \* no request without a fresh grant
 
-TNext == TNew \/ TCall \/ TSess \/ TGrant \/ TWire
+(* A long flood through a limiter configured for rps (each request asked for the moment the previous one is released), in
+   microseconds:  {"ev":"Rate","D":floor(10^6/rps),"n":releases,"span":last - first release,"maxdelay":largest delay}.
+   The n releases are one window of the property (k = n-1): they span more than (n-2)/rps; no request waits longer than 1/rps.
+   (Short windows cannot see an interval that is a fraction of a percent too short; a long one can.) *)
+TRate == /\ IsEvent("Rate")
+         /\ Rec[l].span >= (Rec[l].n - 2) * Rec[l].D
+         /\ Rec[l].maxdelay <= Rec[l].D + 1
+         /\ UNCHANGED <<d, hist>>
+
+TNext == TNew \/ TCall \/ TSess \/ TGrant \/ TWire \/ TRate
 TSpec == TInit /\ [][TNext]_tvars
 
 TraceAccepted ==
